@@ -24,6 +24,7 @@ func TestCheck(t *testing.T) {
 	// (c) semantic error locations
 	rt.Rapid(e, "sem", 200_000, 1_500_000, GenSem, RunSem)
 	rt.Rapid(e, "msem", 60_000, 400_000, GenMSem, RunMSem)
+	rt.Rapid(e, "usersem", 60_000, 600_000, GenUSem, RunUSem)
 
 	// (d) Pointer methods
 	rt.Rapid(e, "pointer", 120_000, 1_000_000, GenPtr, RunPtr)
